@@ -34,11 +34,13 @@ klass('InsecureMechanismError', ['ServerAuthError'])
 klass('InvalidMechanismError', ['ServerAuthError'])
 klass('AuthenticationCanceled', ['ServerAuthError'])
 klass('UnexpectedAuthError', ['ServerAuthError'])
+# the replies these errors carry are the literal 501 / 504 of slimta/smtp/auth.py: error replies that do NOT end the session
+predicate('auth_err_code(c)', 'c == "501" or c == "504"')
 for _c in ('InvalidAuthString', 'InsecureMechanismError', 'InvalidMechanismError', 'AuthenticationCanceled'):
     extern(_c + '.__init__', params={'self': _c}, modifies=['self.reply'],
-           ensures=['self.reply != None', 'is_err_code(self.reply.code)'])
+           ensures=['self.reply != None', 'is_err_code(self.reply.code)', 'auth_err_code(self.reply.code)'])
 extern('UnexpectedAuthError.__init__', params={'self': 'UnexpectedAuthError', 'exc': 'Any'}, modifies=['self.reply'],
-       ensures=['self.reply != None', 'is_err_code(self.reply.code)'])
+       ensures=['self.reply != None', 'is_err_code(self.reply.code)', 'auth_err_code(self.reply.code)'])
 klass('SASLAuth')
 klass('Mechanism', fields={'insecure': 'Bool'}, ghost={'insecure__set': 'Bool'})
 klass('AuthenticationError', ['Exception'])
@@ -73,14 +75,14 @@ extern('base64.b64decode', params={'s': 'Bytes'}, returns='Bytes',
 contract('AuthSession._parse_arg', module=MA, props=['C08'],
          params={'self': 'AuthSession', 'arg': 'Opt[Bytes]'}, returns='Tuple[Bytes, Opt[Bytes]]',
          # a malformed / missing argument is reported as a ServerAuthError carrying an error reply -- for EVERY shape
-         raises={'InvalidMechanismError': ['exc.reply != None', 'is_err_code(exc.reply.code)']},
+         raises={'InvalidMechanismError': ['exc.reply != None', 'is_err_code(exc.reply.code)', 'auth_err_code(exc.reply.code)']},
          modifies=['fresh'])
 
 contract('AuthSession._server_challenge', module=MA, props=['C08', 'C14'],
          params={'self': 'AuthSession', 'challenge': 'Bytes', 'response': 'Opt[Bytes]'}, returns='Bytes',
          requires=['self.io != None', 'self.io.sent != None', 'in_timeout_scope()'],
          ensures=['forall(range(0, old(len(self.io.sent))), lambda j: self.io.sent[j] == old(seq(self.io.sent))[j])', 'len(self.io.sent) >= old(len(self.io.sent))'],
-         raises={'AuthenticationCanceled': ['exc.reply != None', 'is_err_code(exc.reply.code)', 'forall(range(0, old(len(self.io.sent))), lambda j: self.io.sent[j] == old(seq(self.io.sent))[j])', 'len(self.io.sent) >= old(len(self.io.sent))'], 'InvalidAuthString': ['exc.reply != None', 'is_err_code(exc.reply.code)', 'forall(range(0, old(len(self.io.sent))), lambda j: self.io.sent[j] == old(seq(self.io.sent))[j])', 'len(self.io.sent) >= old(len(self.io.sent))'],
+         raises={'AuthenticationCanceled': ['exc.reply != None', 'is_err_code(exc.reply.code)', 'auth_err_code(exc.reply.code)', 'forall(range(0, old(len(self.io.sent))), lambda j: self.io.sent[j] == old(seq(self.io.sent))[j])', 'len(self.io.sent) >= old(len(self.io.sent))'], 'InvalidAuthString': ['exc.reply != None', 'is_err_code(exc.reply.code)', 'auth_err_code(exc.reply.code)', 'forall(range(0, old(len(self.io.sent))), lambda j: self.io.sent[j] == old(seq(self.io.sent))[j])', 'len(self.io.sent) >= old(len(self.io.sent))'],
                  'BinasciiError': ['forall(range(0, old(len(self.io.sent))), lambda j: self.io.sent[j] == old(seq(self.io.sent))[j])', 'len(self.io.sent) >= old(len(self.io.sent))'], 'ConnectionLost': [], 'Timeout': []},
          modifies=['contents(self.io.sent)', 'fresh'])
 
@@ -90,7 +92,7 @@ contract('AuthSession.server_attempt', module=MA, props=['C08'],
          # what reaches Server._command_AUTH is credentials, a ValueError or a ServerAuthError with an error reply:
          # nothing else (no TypeError / AttributeError) for any argument shape
          ensures=['forall(range(0, old(len(self.io.sent))), lambda j: self.io.sent[j] == old(seq(self.io.sent))[j])', 'len(self.io.sent) >= old(len(self.io.sent))'],
-         raises={'ServerAuthError': ['exc.reply != None', 'is_err_code(exc.reply.code)', 'forall(range(0, old(len(self.io.sent))), lambda j: self.io.sent[j] == old(seq(self.io.sent))[j])', 'len(self.io.sent) >= old(len(self.io.sent))'], 'ValueError': ['forall(range(0, old(len(self.io.sent))), lambda j: self.io.sent[j] == old(seq(self.io.sent))[j])', 'len(self.io.sent) >= old(len(self.io.sent))'], 'ConnectionLost': [], 'Timeout': []},
+         raises={'ServerAuthError': ['exc.reply != None', 'is_err_code(exc.reply.code)', 'auth_err_code(exc.reply.code)', 'forall(range(0, old(len(self.io.sent))), lambda j: self.io.sent[j] == old(seq(self.io.sent))[j])', 'len(self.io.sent) >= old(len(self.io.sent))'], 'ValueError': ['forall(range(0, old(len(self.io.sent))), lambda j: self.io.sent[j] == old(seq(self.io.sent))[j])', 'len(self.io.sent) >= old(len(self.io.sent))'], 'ConnectionLost': [], 'Timeout': []},
          locals={'responses': 'List[ChallengeResponse]'},
          modifies=['contents(self.io.sent)', 'fresh'],
          loops={0: dict(modifies=['contents(self.io.sent)', 'fresh'],
